@@ -183,4 +183,53 @@ def displayDataWidthsByName (names : List String) (trows : List (RowObj (Option 
     List (Option Nat) :=
   names.map fun s => measureOne names trows limit (.name s)
 
+/-! ## Sessions on one frame: results handed out, edited by the caller, asked for again
+
+A public call hands the caller an array; the array is the caller's, it may edit it in place.  Whether the *next* call
+can see such an edit depends on two facts about the source of `DataFrame.collect`, both regenerated from the working
+tree: `Gen.CallSites.resultKept` (some statement stores the returned array, or something computed from it, where it
+outlives the call) and `Gen.CallSites.resultFresh` (the returned name is bound by calls of the compiled helper only).
+`frame[...]` adds nothing of its own when `Gen.CallSites.getitemDirect`. -/
+
+/-- What happens on a frame between two appends: a request is made, or the caller edits the array it was handed last. -/
+inductive Event (ρ β : Type) where
+  | call (req : ρ)
+  | edit (e : β → β)
+
+/-- The requests of a session, in order. -/
+def requestsOf {ρ β : Type} : List (Event ρ β) → List ρ
+  | [] => []
+  | .call r :: rest => r :: requestsOf rest
+  | .edit _ :: rest => requestsOf rest
+
+/-- One public call.  `memo` is what the frame keeps (a request and the array answered to it).  A function whose
+returned name has a binding that is not the helper call (`fresh = false`) answers a repeated request with the kept
+array; a function that stores its result (`kept = true`) keeps *the array it hands out*. -/
+def sessionCall {ρ β : Type} [DecidableEq ρ] (kept fresh : Bool) (compute : ρ → β) (memo : Option (ρ × β)) (req : ρ) :
+    β × Option (ρ × β) :=
+  let answer := match memo with
+    | some (r, a) => if fresh = false ∧ r = req then a else compute req
+    | none => compute req
+  (answer, if kept then some (req, answer) else memo)
+
+/-- The answers of a session.  The kept array *is* the array handed out last, so the caller's edit edits it. -/
+def runSession {ρ β : Type} [DecidableEq ρ] (kept fresh : Bool) (compute : ρ → β) : Option (ρ × β) → List (Event ρ β) → List β
+  | _, [] => []
+  | memo, .call req :: rest =>
+      (sessionCall kept fresh compute memo req).1 :: runSession kept fresh compute (sessionCall kept fresh compute memo req).2 rest
+  | memo, .edit e :: rest => runSession kept fresh compute (memo.map fun p => (p.1, e p.2)) rest
+
+/-- Some public entry point keeps a result: `DataFrame.collect` stores it, or `frame[...]` is more than a call of it. -/
+def entryKeeps : Bool := Gen.CallSites.resultKept || !Gen.CallSites.getitemDirect
+
+/-- Every public entry point returns an array made by the helper call it makes: `DataFrame.collect` returns only names
+bound by the helper call, and `frame[...]` is nothing but a call of it. -/
+def entryFresh : Bool := Gen.CallSites.resultFresh && Gen.CallSites.getitemDirect
+
+/-- A request as the public API takes it: the column references, "not a list", the limit. -/
+abbrev Request := List ColRef × Bool × Option Int
+
+def answerOf (names : List String) (rows : List (RowObj α)) (r : Request) : PubOutcome α :=
+  publicCollect names rows r.1 r.2.1 r.2.2
+
 end CallSites
